@@ -6,6 +6,7 @@ import Req.C02.H1Msg
 import Req.C02.H1Full
 import Req.C02.H3Recv
 import Req.C02.H2Recv
+import Req.C02.H2Repair
 import Req.C02.ReadLine
 import Req.C02.DataBuffer
 /-! Driver lanes of C02. -/
@@ -256,7 +257,8 @@ def laneH2Recv : List String → String
       match parseBool01 c with
       | none => "bad-op"
       | some isHead =>
-        let s := evs.foldl (fun s e => s.event e) (H2Stream.init isHead)
+        -- judged by the REPAIRED behaviour of finding C02-3 (no length accounting for 204/304)
+        let s := (evs.foldl (fun s e => s.event e) (H2Stream.init isHead)).lenRepair
         match s.res with
         | none => "error:" ++ h2ErrStr (match s.headErr with | some e => some e | none => some .connProto)
         | some res =>
@@ -329,7 +331,7 @@ def laneH1Line : List String → String
     match cap.toNat?, decodeList segs, parseNetEnd fin, n.toNat? with
     | some cap, some segs, some fin, some n =>
       let total := (segs.map List.length).sum
-      let (ls, e, b) := Bufio.readLines n (total + 4) (Bufio.new cap { segs := segs, fin := fin })
+      let (ls, e, b) := Bufio.readLinesAny n (total + 4) (Bufio.new cap { segs := segs, fin := fin })
       "lines=" ++ encodeList ls ++ " err=" ++ ioErrStr e ++ " rem=" ++ toString b.rem.length
     | _, _, _, _ => "bad-op"
   | _ => "bad-op"
